@@ -379,8 +379,7 @@ Definition Wait (w : Z) : Z :=
   else wait_fallback.
 
 (* ------------------------------------------------------------------ *)
-(* the three wrappers: what main returns, given how the child behaved.
-   needs: child lines the collector consumes per record (cache: 1 per new key,
+(* the three wrappers.  needs: child lines the collector consumes per record (cache: 1 per new key,
    foldfilter: one per piece, b64filter: line_cnt); child_lines: lines the
    child produced before its stdout reached end of file. *)
 
@@ -399,19 +398,7 @@ Definition swallows (wr : wrapper) : bool :=
   | B64filter => b64filter_main_swallows_exceptions
   end.
 
-(* feeder_ok = false: a write to the child's stdin failed (EPIPE etc.) => FDException in the feeder thread *)
-Definition wrapper_status (wr : wrapper) (needs : list nat) (child_lines : nat) (t : term) (feeder_ok : bool) : status :=
-  let ret := Exited (Wait (wstatus t) mod 256) in
-  if swallows wr then ret else
-  match collect needs child_lines with
-  | None => Signaled SIGABRT           (* ReadLine hit EOF: exception leaves the collector thread => terminate *)
-  | Some rest =>
-    if negb feeder_ok then Signaled SIGABRT
-    else match wr with
-         | B64filter => if (0 <? rest)%nat then Signaled SIGABRT (* "more output than it was given input" *) else ret
-         | _ => ret
-         end
-  end.
+(* what main returns is derived from the wrappers' threads in Sys/WrapperMainDefs.v *)
 
 Definition status_ok (s : status) : bool := match s with Exited 0 => true | _ => false end.
 
